@@ -185,6 +185,8 @@ fn hermes_doc(c: &HCase) -> Vec<u8> {
         names: vec!["n".into()],
         contents: (0..c.ns).map(|i| Some(format!("c{i}"))).collect(),
         tokens: c.tok_srcs.iter().enumerate().map(|(k, &s)| RTok::new(0, k as u32, Some((s as u32, 0, 1, Some(0))))).collect(),
+        file: Some("bundle.js".into()),
+        debug_id: Some(DEBUG_ID_B.into()),
         ..Default::default()
     };
     let fb: Vec<Value> = (0..c.ns)
